@@ -30,7 +30,7 @@ from typing import Dict, List, Optional, Set, Tuple
 import networkx as nx
 
 from ..cfg import CFG, Node
-from ..deps import ReachingDefs, dependence, reads, root_name, statement_defs, subtree_nodes, value_reads
+from ..deps import ReachingDefs, dependence, forward_dependence, reads, root_name, statement_defs, subtree_nodes, value_reads
 from ..index import AnalysisError, FunctionInfo, ProgramIndex, dotted, norm, short, walk_body
 from ..inline import inline_helpers
 from ..report import Finding, Report
@@ -202,31 +202,6 @@ def _paths(stmts: List[ast.stmt], limit: int = 16) -> List[List[ast.stmt]]:
     return paths
 
 
-def _forward_dependence(stmts: List[ast.stmt]) -> Dict[str, Set[str]]:
-    """Dependence along ONE straight-line path, in statement order: a use sees the definitions made before it on the path
-    (names not yet defined on the path stand for their value at the start of the iteration).  Weak updates (in-place
-    methods, out= on an existing buffer that is also read, subscript stores) keep the previous dependences."""
-    env: Dict[str, Set[str]] = {}
-
-    def dep(n: str) -> Set[str]:
-        return env.get(n, {n})
-
-    for st in stmts:
-        order = []
-        for x in ast.walk(st):
-            for name, rd_ in statement_defs(x):
-                order.append((getattr(x, "lineno", 0), getattr(x, "col_offset", 0), x, name, rd_))
-        # inner calls of a chain (a.mul_(b).add_(c)) evaluate left to right: sort by position of the END of the call
-        order.sort(key=lambda t: (getattr(t[2], "end_lineno", t[0]), getattr(t[2], "end_col_offset", t[1])))
-        for _, _, x, name, rd_ in order:
-            new: Set[str] = set()
-            for r in rd_:
-                new |= dep(r) | {r}
-            strong = isinstance(x, ast.Assign) and any(isinstance(t, ast.Name) and t.id == name for t in x.targets)
-            env[name] = new if strong else (dep(name) | new)
-    return env
-
-
 def stopping_rules_for(idx: ProgramIndex, rep: Report, prop: str, rule: str) -> None:
     """Re-emit, under another property's rule id, the C08 rules that decide WHEN the solver stops and says so (M: the
     convergence measure is the residual; X: the early exit is controlled by tolerance and residual norm; W: the warning
@@ -288,7 +263,7 @@ def run(idx: ProgramIndex, rep: Report, tier: str, selftest: bool = True):
     n_paths = 0
     for pth in _paths(region):
         nodes = subtree_nodes(pth)
-        d = _forward_dependence(pth)
+        d = forward_dependence(pth)
         updated = {nm for x in nodes for nm, _ in statement_defs(x)}
         label = " / ".join(short(s.value, 30) for s in pth if isinstance(s, ast.Expr) and not isinstance(s.value, ast.Call))[:60] or "straight"
         for role, var in (("residual", R.residual), ("result", R.result)):
